@@ -1659,10 +1659,23 @@ impl Formatter<'_> {
             }
             let row_count = rows.len();
             for (i, row) in rows.into_iter().enumerate() {
+                let row_len = row.len();
                 for (j, br) in row.into_iter().enumerate() {
                     let mut lines = &*br.value.lines;
                     while lines.first().is_some_and(Item::is_empty_line) {
                         lines = &lines[1..];
+                    }
+                    // The line break that ends a row is in the last branch of the row
+                    // when formatted again, even if it was inside a bracket of that branch
+                    let with_line_break: Vec<Item>;
+                    if i < row_count - 1
+                        && j == row_len - 1
+                        && !lines.is_empty()
+                        && !lines.last().is_some_and(Item::is_empty_line)
+                    {
+                        with_line_break =
+                            (lines.iter().cloned().chain([Item::Words(Vec::new())])).collect();
+                        lines = &with_line_break;
                     }
 
                     if (i, j) == (0, 0) {
